@@ -152,7 +152,9 @@ REQ_OPTS = [(['x', 'y', 'z'], [['x', 'y'], 'REMAINING']), (['x', 'y', 'z'], ['RE
             (['x', 'y', 'z'], [['x'], ['y', 'z']]), (['x', 'y', 'z'], [['x', 'y', 'z'], 'NONE']),
             (['r1', 'r2'], ['NONE', ['r1', 'r2']]), (['r1', 'r2'], ['NONE', 'ALL']),
             # names that are equal under case folding / differ only in length: tie-breaking of "clever" sort keys
-            (['aB', 'Ab', 'ab_'], [['aB', 'Ab'], 'REMAINING']), (['aB', 'Ab', 'ab_'], ['NONE', ['Ab', 'ab_', 'aB']])]
+            (['aB', 'Ab', 'ab_'], [['aB', 'Ab'], 'REMAINING']), (['aB', 'Ab', 'ab_'], ['NONE', ['Ab', 'ab_', 'aB']]),
+            # explicit selections that also name the INJECTED ports (inj, inj2, Inj)
+            (['x', 'y'], [['x', 'inj', 'inj2'], ['y', 'Inj']]), (['x', 'y'], [['inj2', 'Inj', 'inj'], 'REMAINING'])]
 
 
 def configurations():
@@ -162,7 +164,11 @@ def configurations():
             continue   # multi-client needs an MTS provides port
         if fac == 'import' and (mc or prov[0] != 'hal'):
             continue   # the origin does not interact with name sets: vary it on a subset only
-        yield {'prov': prov, 'req': req, 'inj': ['inj'], 'psel': psel, 'rsel': rsel, 'mc': mc, 'fac': fac}
+        names_inj = any(not isinstance(x, str) and 'inj' in x for x in rsel)
+        if names_inj and (mc or prov[0] != 'hal'):
+            continue   # selections naming injected ports: on a subset of the provides options only
+        yield {'prov': prov, 'req': req, 'inj': ['inj', 'inj2', 'Inj'] if names_inj else ['inj'], 'psel': psel,
+               'rsel': rsel, 'mc': mc, 'fac': fac}
 
 
 def mk_select(sel, reverse=False, controlled=True):
